@@ -19,8 +19,40 @@ def create(emu, rate=44100, chips=1):
     return {"e": "Create", "emu": emu, "rate": rate, "chips": chips}
 
 
-def on(k=60, p=1):
-    return {"e": "On", "k": k, "p": p}
+def on(k=60, p=1, ch=None, vel=None):
+    c = {"e": "On", "k": k, "p": p}
+    if ch is not None:
+        c["ch"] = ch          # real-time MIDI channel (default 0)
+    if vel is not None:
+        c["vel"] = vel
+    return c
+
+
+def off(k=60, ch=None):
+    c = {"e": "Off", "k": k}
+    if ch is not None:
+        c["ch"] = ch
+    return c
+
+
+def ctl(c, v, ch=0):
+    """MIDI controller c := v on real-time channel ch (10 pan, 7 volume, 11 expression, 74 brightness, 1 modulation, 121 reset ...)."""
+    return {"e": "Ctl", "ch": ch, "c": c, "v": v}
+
+
+def bend(v, ch=0):
+    return {"e": "Bend", "ch": ch, "v": v}
+
+
+def setting(s, v):
+    """A per-instance switch of the API (spec/Isolation.tla Settings): softpan bright smod vmodel lfofreq arp alloc."""
+    return {"e": "Set", "s": s, "v": v}
+
+
+CLOSE = {"e": "Close"}
+PANS = [0, 20, 64, 105, 127]                 # hard panning: left third / centre / right third; soft panning: the pan law
+SETTINGS = [("softpan", [0, 1, 1]), ("bright", [0, 1, 1]), ("smod", [0, 1, 1]), ("vmodel", [0, 1, 2, 3, 4, 5]), ("lfofreq", [-1, 0, 3, 7]),
+            ("arp", [0, 1]), ("alloc", [-1, 0, 1, 2])]
 
 
 def gen(fr=384):
@@ -162,6 +194,95 @@ def port_pair_executions(a, b, every=1, offset=0):
             yield [init(2)] + il
 
 
+# ------------------------------------------------------------------ own settings / controllers against somebody else's
+def pan_pair_executions(a, b, every=1, offset=0):
+    """The observed instance pans two channels away from the centre and never touches its soft-pan switch; the other one
+    switches soft panning on, pans, plays and closes.  3003 interleavings: every order of create / set / pan / note / close,
+    incl. 'the other one is gone before the observed one is created' and the reverse."""
+    ha = [create(a), ctl(10, 20, 0), ctl(10, 105, 1), on(60, 1, 0), on(67, 2, 1), gen(384), ctl(10, 127, 0), gen(256)]
+    hb = [create(b), setting("softpan", 1), ctl(10, 0, 0), on(64, 1), gen(300), CLOSE]
+    for q, il in enumerate(interleavings([ha, hb])):
+        if q % every == offset % every:
+            yield [init(2)] + il
+
+
+def controlled_history(emu, pans, own=(), rate=44100, chips=1):
+    """One instance that uses the controllers: pan on channels 0.., volume / expression / brightness / modulation / pitch bend,
+    notes started under them, controllers moved while the notes sound.  own = the setter calls it makes itself (none: every switch
+    keeps the value opn2_init gave it)."""
+    h = [create(emu, rate, chips)] + [setting(s, v) for (s, v) in own]
+    for ch, v in enumerate(pans):
+        h.append(ctl(10, v, ch))
+    h += [ctl(7, 90, 0), ctl(11, 100, 1), ctl(74, 40, 0), ctl(1, 60, 1), bend(9000, 0)]
+    for ch, v in enumerate(pans):
+        h.append(on(52 + 4 * ch, ch % 3, ch, 90 + ch))
+    h += [gen(400), ctl(10, pans[-1], 0), ctl(7, 50, 0), ctl(74, 100, 0), ctl(11, 60, 1), gen(300), ctl(121, 0, 0), ctl(10, 64, 1), gen(200)]
+    return h
+
+
+def other_history(emu, sets, close=True):
+    """The other instance: sets its switches (soft panning on, full-range brightness, scale modulators, volume model, LFO ...),
+    plays under its own controllers and (close) goes away, leaving its objects on the heap."""
+    h = [create(emu)] + [setting(s, v) for (s, v) in sets] + [ctl(10, 127, 0), ctl(74, 20, 0), ctl(7, 60, 0), on(64, 1), gen(300)]
+    return h + ([CLOSE] if close else [])
+
+
+OTHER_SETS = [[("softpan", 1)],
+              [("softpan", 1), ("bright", 1), ("smod", 1), ("vmodel", 3), ("lfofreq", 5), ("arp", 1), ("alloc", 1)],
+              [("bright", 1), ("smod", 1), ("vmodel", 4)],
+              [("softpan", 1), ("softpan", 0), ("vmodel", 2)]]
+
+
+def recycle_executions(a, b, every=1, offset=0, pans=(20, 105, 64)):
+    """Create / close ORDER on one heap: the observed instance (never calls a setter) is created before the other one exists,
+    while it lives (after each of its calls) and after it was closed; then the observed instance runs.  Second family: two
+    others come and go first (n = 3).  Third: the observed instance is its own predecessor (sets soft panning, closes, is created
+    again: the new incarnation starts from the defaults)."""
+    q = 0
+    for sets in OTHER_SETS:
+        hb = other_history(b, sets)
+        ha = controlled_history(a, pans)
+        for pos in range(len(hb) + 1):
+            q += 1
+            if q % every != offset % every:
+                continue
+            yield [init(2)] + [tag(1, c) for c in hb[:pos]] + [tag(0, ha[0])] + [tag(1, c) for c in hb[pos:]] + [tag(0, c) for c in ha[1:]]
+    for sets in OTHER_SETS[:2]:
+        q += 1
+        if q % every == offset % every:
+            yield ([init(3)] + [tag(1, c) for c in other_history(b, sets)] + [tag(2, c) for c in other_history(a, OTHER_SETS[2])]
+                   + [tag(0, c) for c in controlled_history(a, pans)])
+    for sets in OTHER_SETS[:2]:
+        q += 1
+        if q % every == offset % every:
+            first = controlled_history(a, pans, own=sets)
+            yield [init(1)] + [tag(0, c) for c in first + [CLOSE] + controlled_history(a, pans)]
+
+
+def controller_probes(emus=None):
+    """Solo histories over the controllers for every core: without any setter call (what opn2_init leaves in the switches decides)
+    and with each switch set by the instance itself."""
+    hs = []
+    owns = [(), (("softpan", 1),), (("bright", 1), ("smod", 1)), (("vmodel", 3), ("lfofreq", 6)), (("softpan", 1), ("softpan", 0))]
+    for e, emu in enumerate(emus or EMUS):
+        for o, own in enumerate(owns):
+            pans = [PANS[(e + o + j) % 5] for j in range(3)] + [20, 105]
+            h = controlled_history(emu, pans, own, RATES[(e + o) % 3], 1 + (e + o) % 2)
+            hs.append([init(1)] + [tag(0, c) for c in h + [CLOSE]])
+    return hs
+
+
+def settings_executions(quick, seed):
+    hs = []
+    pairs = [(0, 0), (0, 2), (2, 4), (4, 5), (5, 1), (1, 8), (3, 6), (6, 3), (8, 0)] if quick else [(a, b) for a in EMUS for b in EMUS]
+    for (a, b) in pairs:
+        hs += list(pan_pair_executions(a, b, 200 if quick else 120, seed + 7 * a + b))
+    rp = [(e, EMUS[(j + 3) % len(EMUS)]) for j, e in enumerate(EMUS)] if quick else [(a, b) for a in EMUS for b in EMUS]
+    for (a, b) in rp:
+        hs += list(recycle_executions(a, b, 4 if quick else 1, seed + a + b, pans=(PANS[(a + 1) % 5], PANS[(b + 3) % 5], 64)))
+    return hs
+
+
 CRITICAL_PAIRS = [(1, 8), (8, 1), (4, 4), (2, 2), (0, 5), (1, 1), (8, 8)]
 
 
@@ -196,6 +317,18 @@ def random_solo(rng, length, emus=EMUS):
         if not alive:
             h.append(create(rng.choice(emus), rng.choice(RATES), rng.choice([1, 1, 2, 2, 3])))
             alive = True
+            continue
+        if rng.random() < 0.28:         # own controllers and switches
+            r = rng.random()
+            ch = rng.choice([0, 0, 0, 1, 2])
+            if r < 0.30: h.append(ctl(10, rng.choice(PANS), ch))
+            elif r < 0.50: h.append(ctl(rng.choice([7, 11, 74, 1, 64, 121]), rng.choice([0, 40, 100, 127]), ch))
+            elif r < 0.58: h.append(bend(rng.choice([0, 4096, 8192, 12000, 16383]), ch))
+            elif r < 0.72: h.append(setting("softpan", rng.choice([0, 1, 1])))
+            elif r < 0.86:
+                s, vs = rng.choice(SETTINGS)
+                h.append(setting(s, rng.choice(vs)))
+            else: h.append(on(rng.choice([36, 48, 60, 64, 72, 84]), rng.choice([0, 1, 1, 2]), ch, rng.choice([40, 100, 127])))
             continue
         r = rng.random()
         if r < 0.30: h.append(gen(rng.choice([64, 256, 384, 1000, 2048])))
@@ -259,6 +392,8 @@ def par_pair(a, b):
     A, B = 0, 1
     rounds = [
         [(A, create(a)), (B, create(b))],
+        [(A, setting("softpan", 1)), (B, ctl(10, 20))],           # a switch of one instance against the controller that reads it in the other
+        [(A, ctl(10, 105)), (B, setting("vmodel", 3))],
         [(A, on(60, 1)), (B, on(64, 2))],
         [(A, gen(300)), (B, gen(300))],
         [(A, {"e": "Lfo", "v": 1}), (B, gen(200))],
